@@ -27,6 +27,11 @@ enum Conf {
     Roomy,
     RoomyWeighed,
     Ttl,
+    /// no mock clock installed (the cache reads `Instant::now()`), the library's default
+    /// number of map shards; nothing can expire within the run (ttl and tti of one hour)
+    RealClock,
+    /// the same with a roomy capacity and the weigher
+    RealClockRoomy,
 }
 
 impl Conf {
@@ -36,7 +41,15 @@ impl Conf {
             Conf::Roomy => "cap100000",
             Conf::RoomyWeighed => "cap100000-weigher",
             Conf::Ttl => "ttl10",
+            Conf::RealClock => "realclock-ttl1h-tti1h",
+            Conf::RealClockRoomy => "realclock-cap100000-weigher-ttl1h",
         }
+    }
+    fn real(self) -> bool {
+        matches!(self, Conf::RealClock | Conf::RealClockRoomy)
+    }
+    fn weighed(self) -> bool {
+        matches!(self, Conf::RoomyWeighed | Conf::RealClockRoomy)
     }
 }
 
@@ -140,17 +153,25 @@ where
     let mut out = Vec::new();
     let r = std::panic::catch_unwind(std::panic::AssertUnwindSafe(|| {
         let mut b = mini_moka::sync::Cache::<K, V>::builder();
-        if matches!(conf, Conf::Roomy | Conf::RoomyWeighed) {
+        if matches!(conf, Conf::Roomy | Conf::RoomyWeighed | Conf::RealClockRoomy) {
             b = b.max_capacity(100_000);
         }
-        if conf == Conf::RoomyWeighed {
+        if conf.real() {
+            b = b.time_to_live(Duration::from_secs(3600));
+            if conf == Conf::RealClock {
+                b = b.time_to_idle(Duration::from_secs(3600));
+            }
+        }
+        if conf.weighed() {
             b = b.weigher(move |_k: &K, v: &V| weight_of_idx(idx_of_v(v)));
         }
         if conf == Conf::Ttl {
             b = b.time_to_live(Duration::from_millis(TTL_TICKS * 1000));
         }
+        mini_moka::verif::set_shard_amount(if conf.real() { 0 } else { 4 });
         let c = b.build();
-        let clock = c.verif_install_mock_clock();
+        mini_moka::verif::set_shard_amount(4);
+        let clock = if conf.real() { None } else { Some(c.verif_install_mock_clock()) };
         let mut m = Ref { m: HashMap::new(), now: 0, ttl: if conf == Conf::Ttl { Some(TTL_TICKS) } else { None } };
         let mut vid = 0u32;
         let mut viols: Vec<Violation> = Vec::new();
@@ -196,7 +217,10 @@ where
                 }
                 Step::InvAll => {
                     // (at a strictly later reading than every insert so far)
-                    clock.advance(Duration::from_millis(1000));
+                    match &clock {
+                        Some(cl) => cl.advance(Duration::from_millis(1000)),
+                        None => std::thread::sleep(Duration::from_millis(1)),
+                    }
                     m.now += 1;
                     c.invalidate_all();
                     m.m.clear();
@@ -207,10 +231,10 @@ where
                     let want = m.live();
                     let held = c.verif_snapshot(|_| 0, |_| 0).entries.len() as u64;
                     let (ec, ws) = (c.entry_count(), c.weighted_size());
-                    let want_ws: u64 = want.iter().map(|(_, v)| if conf == Conf::RoomyWeighed { weight_of_idx(*v) as u64 } else { 1 }).sum();
+                    let want_ws: u64 = want.iter().map(|(_, v)| if conf.weighed() { weight_of_idx(*v) as u64 } else { 1 }).sum();
                     // expired-but-unpurged entries may still be counted; without expiry
                     // the counters are exactly what iteration yields
-                    if conf != Conf::Ttl && (ec != want.len() as u64 || ws != want_ws) {
+                    if conf != Conf::Ttl && !conf.real() && (ec != want.len() as u64 || ws != want_ws) {
                         viols.push(viol("C10", "types:counters!=live-entries", format!("step {i}: after sync() entry_count {ec} weighted_size {ws}, but {} live entries of total weight {want_ws}", want.len()), name));
                     }
                     if ec != held {
@@ -218,7 +242,10 @@ where
                     }
                 }
                 Step::Adv => {
-                    clock.advance(Duration::from_millis(1000));
+                    match &clock {
+                        Some(cl) => cl.advance(Duration::from_millis(1000)),
+                        None => std::thread::sleep(Duration::from_micros(50)),
+                    }
                     m.now += 1;
                 }
             }
@@ -241,17 +268,23 @@ where
     let mut out = Vec::new();
     let r = std::panic::catch_unwind(std::panic::AssertUnwindSafe(|| {
         let mut b = mini_moka::unsync::Cache::<K, V>::builder();
-        if matches!(conf, Conf::Roomy | Conf::RoomyWeighed) {
+        if matches!(conf, Conf::Roomy | Conf::RoomyWeighed | Conf::RealClockRoomy) {
             b = b.max_capacity(100_000);
         }
-        if conf == Conf::RoomyWeighed {
+        if conf.real() {
+            b = b.time_to_live(Duration::from_secs(3600));
+            if conf == Conf::RealClock {
+                b = b.time_to_idle(Duration::from_secs(3600));
+            }
+        }
+        if conf.weighed() {
             b = b.weigher(move |_k: &K, v: &V| weight_of_idx(idx_of_v(v)));
         }
         if conf == Conf::Ttl {
             b = b.time_to_live(Duration::from_millis(TTL_TICKS * 1000));
         }
         let mut c = b.build();
-        let clock = c.verif_install_mock_clock();
+        let clock = if conf.real() { None } else { Some(c.verif_install_mock_clock()) };
         let mut m = Ref { m: HashMap::new(), now: 0, ttl: if conf == Conf::Ttl { Some(TTL_TICKS) } else { None } };
         let mut vid = 0u32;
         let mut viols: Vec<Violation> = Vec::new();
@@ -305,13 +338,16 @@ where
                     c.invalidate(&absent);
                     let want = m.live();
                     let (ec, ws) = (c.entry_count(), c.weighted_size());
-                    let want_ws: u64 = want.iter().map(|(_, v)| if conf == Conf::RoomyWeighed { weight_of_idx(*v) as u64 } else { 1 }).sum();
-                    if conf != Conf::Ttl && (ec != want.len() as u64 || ws != want_ws) {
+                    let want_ws: u64 = want.iter().map(|(_, v)| if conf.weighed() { weight_of_idx(*v) as u64 } else { 1 }).sum();
+                    if conf != Conf::Ttl && !conf.real() && (ec != want.len() as u64 || ws != want_ws) {
                         viols.push(viol("C10", "types:counters!=live-entries", format!("step {i}: entry_count {ec} weighted_size {ws}, but {} live entries of total weight {want_ws}", want.len()), name));
                     }
                 }
                 Step::Adv => {
-                    clock.advance(Duration::from_millis(1000));
+                    match &clock {
+                        Some(cl) => cl.advance(Duration::from_millis(1000)),
+                        None => std::thread::sleep(Duration::from_micros(50)),
+                    }
                     m.now += 1;
                 }
             }
@@ -396,10 +432,66 @@ fn v_opt(i: u32) -> Option<Box<u32>> {
     }
 }
 
+/// Expiry against the REAL clock (no mock clock installed): an entry must not be observable
+/// once the thread has slept through its time-to-live / time-to-idle. (Only the upper bound
+/// is judged: that a sleep lasts at least as long as asked is guaranteed, how much longer is
+/// not - so the verdict does not depend on the load of the machine.)
+fn realtime(kind: char, idle: bool) -> Scenario {
+    let name: &'static str = Box::leak(format!("types:{kind}:realtime-{}30ms", if idle { "tti" } else { "ttl" }).into_boxed_str());
+    let d = Duration::from_millis(30);
+    let mut out = Vec::new();
+    let r = std::panic::catch_unwind(std::panic::AssertUnwindSafe(|| -> Vec<String> {
+        let mut bad = Vec::new();
+        if kind == 'S' {
+            let b = mini_moka::sync::Cache::<String, String>::builder().max_capacity(100);
+            let c = if idle { b.time_to_idle(d).build() } else { b.time_to_live(d).build() };
+            for round in 0..3 {
+                c.insert("a".to_string(), format!("v{round}"));
+                c.insert("b".to_string(), format!("w{round}"));
+                if round == 1 {
+                    c.sync();
+                }
+                let _ = c.get(&"a".to_string());
+                std::thread::sleep(Duration::from_millis(45));
+                if c.get(&"a".to_string()).is_some() || c.contains_key(&"b".to_string()) || c.iter().count() != 0 {
+                    bad.push(format!("round {round}: an entry is still observable 45 ms after its insert and last read ({} 30 ms, real clock)", if idle { "time_to_idle" } else { "time_to_live" }));
+                }
+            }
+        } else {
+            let b = mini_moka::unsync::Cache::<String, String>::builder().max_capacity(100);
+            let mut c = if idle { b.time_to_idle(d).build() } else { b.time_to_live(d).build() };
+            for round in 0..3 {
+                c.insert("a".to_string(), format!("v{round}"));
+                c.insert("b".to_string(), format!("w{round}"));
+                let _ = c.get(&"a".to_string());
+                std::thread::sleep(Duration::from_millis(45));
+                if c.iter().count() != 0 || c.get(&"a".to_string()).is_some() || c.contains_key(&"b".to_string()) {
+                    bad.push(format!("round {round}: an entry is still observable 45 ms after its insert and last read ({} 30 ms, real clock)", if idle { "time_to_idle" } else { "time_to_live" }));
+                }
+            }
+        }
+        bad
+    }));
+    match r {
+        Ok(bad) => {
+            for b in bad.into_iter().take(1) {
+                out.push(viol(if idle { "C06" } else { "C05" }, "types:realtime:visible-past-deadline", b.clone(), name));
+                out.push(viol("C01", "types:realtime:visible-past-deadline", b, name));
+            }
+        }
+        Err(p) => out.push(viol("C08", "types:panic", format!("the real-time scenario panicked: {}", panic_msg(&p)), name)),
+    }
+    Scenario { name, steps: 30, viol: out }
+}
+
 pub fn scenarios() -> Vec<Scenario> {
     let _ = (k_unit, v_opt);
     let mut out = Vec::new();
-    for conf in [Conf::Unbounded, Conf::Roomy, Conf::RoomyWeighed, Conf::Ttl] {
+    for kind in ['S', 'U'] {
+        out.push(realtime(kind, false));
+        out.push(realtime(kind, true));
+    }
+    for conf in [Conf::Unbounded, Conf::Roomy, Conf::RoomyWeighed, Conf::Ttl, Conf::RealClock, Conf::RealClockRoomy] {
         // (the caches' lookups take `&Q` with `Arc<K>: Borrow<Q>` / `Rc<K>: Borrow<Q>`: in
         // practice Q = K, so keys are looked up through their own type)
         out.push(sync_scn::<String, u32>("String-u32", conf, k_string, v_u32, vi_u32, ki_string));
